@@ -670,6 +670,7 @@ package mocrelay
 //@ func mergeHandlerSessionReqState.IsSendableEventMsg
 //@   serves C08
 //@   requires reqWF(stat) && msg != nil && wfEvent(msg.Event) && 0 <= chIdx && chIdx < stat.size
+//@   requires msg.Event.CreatedAt == tsOf(msg.Event.ID)
 //@   writes contents(stat.eose), contents(stat.lastEvent), contents(stat.seen), contents(stat.matcher), contents(stat.seen[msg.SubscriptionID]), when(reqActive(stat, msg.SubscriptionID), each(i, 0, len(lmList(stat.matcher[msg.SubscriptionID])), lmList(stat.matcher[msg.SubscriptionID])[i].cnt))
 //@   ensures reqWF(stat)
 //@   ensures !old(reqActive(stat, msg.SubscriptionID)) ==> result
@@ -683,6 +684,7 @@ package mocrelay
 //@   ensures[C08] (result && old(reqActive(stat, msg.SubscriptionID))) ==> !old(lmDone(stat.matcher[msg.SubscriptionID]))
 //@   ensures[C08] old(reqActive(stat, msg.SubscriptionID)) ==> forall(i, 0, len(lmList(stat.matcher[msg.SubscriptionID])), lmList(stat.matcher[msg.SubscriptionID])[i].cnt >= old(lmList(stat.matcher[msg.SubscriptionID])[i].cnt))
 //@   ensures all(s, string, s != msg.SubscriptionID ==> (stat.eose[s] == old(stat.eose[s]) && stat.lastEvent[s] == old(stat.lastEvent[s]) && stat.matcher[s] == old(stat.matcher[s])))
+//@   ensures[C08] all(F, set[string], old(reqActive(stat, msg.SubscriptionID) && fwdInv(F, stat, msg.SubscriptionID)) ==> ((result ==> !F[msg.Event.ID]) && fwdInv(ite(result, setadd(F, msg.Event.ID), F), stat, msg.SubscriptionID)))
 
 // ---------------------------------------------------------------------------------------------
 // C08/C09: the session functions that run the state machines (state objects travel through 1-slot channels)
@@ -702,6 +704,7 @@ package mocrelay
 //@   serves C08
 //@   opt tokens=reqStat
 //@   requires ss != nil && msg != nil && typeis(msg.Msg, *ServerEventMsg) && as(msg.Msg, *ServerEventMsg) != nil && wfEvent(as(msg.Msg, *ServerEventMsg).Event)
+//@   requires as(msg.Msg, *ServerEventMsg).Event.CreatedAt == tsOf(as(msg.Msg, *ServerEventMsg).Event.ID)
 //@   requires !tokheld(ss.reqStat) && reqWF(tokval(ss.reqStat)) && 0 <= msg.Idx && msg.Idx < tokval(ss.reqStat).size
 //@   writes token(ss.reqStat), contents(tokval(ss.reqStat).eose), contents(tokval(ss.reqStat).lastEvent), contents(tokval(ss.reqStat).seen), contents(tokval(ss.reqStat).matcher), contents(tokval(ss.reqStat).seen[as(msg.Msg, *ServerEventMsg).SubscriptionID]), when(reqActive(tokval(ss.reqStat), as(msg.Msg, *ServerEventMsg).SubscriptionID), each(i, 0, len(lmList(tokval(ss.reqStat).matcher[as(msg.Msg, *ServerEventMsg).SubscriptionID])), lmList(tokval(ss.reqStat).matcher[as(msg.Msg, *ServerEventMsg).SubscriptionID])[i].cnt))
 //@   ensures !tokheld(ss.reqStat) && reqWF(tokval(ss.reqStat))
@@ -768,7 +771,7 @@ package mocrelay
 //@ func mergeHandlerSession.handleSendMsg
 //@   serves C08 C09
 //@   requires ss != nil && msg != nil && wfServerMsg(msg.Msg)
-//@   requires typeis(msg.Msg, *ServerEventMsg) ==> wfEvent(as(msg.Msg, *ServerEventMsg).Event)
+//@   requires typeis(msg.Msg, *ServerEventMsg) ==> (wfEvent(as(msg.Msg, *ServerEventMsg).Event) && as(msg.Msg, *ServerEventMsg).Event.CreatedAt == tsOf(as(msg.Msg, *ServerEventMsg).Event.ID))
 //@   requires !tokheld(ss.reqStat) && reqWF(tokval(ss.reqStat)) && 0 <= msg.Idx && msg.Idx < tokval(ss.reqStat).size
 //@   requires !tokheld(ss.okStat) && okWF(tokval(ss.okStat)) && msg.Idx < tokval(ss.okStat).size
 //@   requires !tokheld(ss.countStat) && cntWF(tokval(ss.countStat)) && msg.Idx < tokval(ss.countStat).size
